@@ -213,6 +213,13 @@ impl TmplGroup {
         self.trees.extend(group.trees.clone());
         self.scripts.extend(group.scripts.clone());
         self.has_scripts = self.has_scripts || group.has_scripts;
+        // (the script of this group may end in a line comment)
+        if !self.extra_runtime_string.is_empty()
+            && !group.extra_runtime_string.is_empty()
+            && !self.extra_runtime_string.ends_with('\n')
+        {
+            self.extra_runtime_string.push('\n');
+        }
         self.extra_runtime_string
             .push_str(&group.extra_runtime_string);
     }
